@@ -16,6 +16,7 @@ MODELS = [
     {'name': 'ts1', 'integration_name': 'mindsdb', 'timeseries': True, 'window': 3, 'order_by_column': 'ts', 'group_by_columns': ['g']},
     {'name': 'ts0', 'integration_name': 'mindsdb', 'timeseries': True, 'window': 2, 'order_by_column': 'ts', 'group_by_columns': []},
     {'name': 'ts2', 'integration_name': 'mindsdb', 'timeseries': True, 'window': 4, 'order_by_column': 'ts', 'group_by_columns': ['g', 'h']},
+    {'name': 'ts3', 'integration_name': 'mindsdb', 'timeseries': True, 'window': 2, 'order_by_column': 'ts', 'group_by_columns': ['gts']},
 ]
 
 
@@ -333,7 +334,7 @@ def model_join(rng):
 def ts_join(rng):
     """Table joined with a time-series model; returns (text, info)."""
     r = rng
-    model = r.choice(['ts1', 'ts0', 'ts2'])
+    model = r.choice(['ts1', 'ts0', 'ts2', 'ts1', 'ts0', 'ts2', 'ts3'])
     op = r.choice(['none', '>', '>=', '=', '<', '<=', 'between', '>latest', '=latest'])
     conds = []
     # the same conditions may be written with the MODEL's alias as qualifier, and comparisons with the value first
@@ -351,12 +352,12 @@ def ts_join(rng):
     elif op != 'none':
         val = r.choice([2, 4, 5])
         conds.append(f'{val} {mirror[op]} {ql}.ts' if flip else f'{ql}.ts {op} {val}')
-    groups = {'ts1': ['g'], 'ts0': [], 'ts2': ['g', 'h']}[model]
+    groups = {'ts1': ['g'], 'ts0': [], 'ts2': ['g', 'h'], 'ts3': ['gts']}[model]
     pf = False
     pval = None
     if groups and r.random() < 0.5:
         pval = r.choice([1, 2])
-        conds.append(f"{pval} = {ql}.g" if flip else f"{ql}.g = {pval}")
+        conds.append(f"{pval} = {ql}.{groups[0]}" if flip else f"{ql}.{groups[0]} = {pval}")
         pf = True
     extra = r.choice([''] * 12 + ['order', 'group', 'offset', 'foreign', 'having', 'group-having', 'offset-comma', 'order-expr'])
     r.shuffle(conds)
